@@ -676,6 +676,48 @@ func c10L1(c *core.Ctx) {
 			}
 		}
 	}
+	// lint tolerates malformed lines and goes on; however many it has tolerated, the part of the file it could not
+	// read is still an error: k malformed lines (mixed kinds, spread over records), then a line beyond the line
+	// buffer / a read error from the device (a directory entry cannot follow, so: /proc/self/mem-like failure is
+	// modelled by the over-long line and, in the job server, by the failing reader)
+	for _, k := range []int{1, 3, 50, 99, 100, 101, 128, 250, 1000, 5000} {
+		var sb strings.Builder
+		for m := 0; m < k; m++ {
+			if m%7 == 0 {
+				fmt.Fprintf(&sb, "2021/01/%02d:\n  fine: 1\n", 1+m%28)
+			}
+			sb.WriteString([]string{"  no separator here\n", "  value: abc\n", "  comma: 1,5\n", "  two: 1.2.3\n"}[m%4])
+		}
+		text := sb.String() + "2021/02/01:\n  # " + strings.Repeat("n", 70000) + "\n  last: 1\n"
+		name := fmt.Sprintf("tolerated%d.yaml", k)
+		os.WriteFile(filepath.Join(dir, name), []byte(text), 0o644)
+		for _, silent := range []bool{false, true} {
+			args := []string{"--no-color", "lint"}
+			if silent {
+				args = append(args, "--silent")
+			}
+			args = append(args, name)
+			res := run.Exec(c.HR, args, run.ExecOpts{Dir: dir})
+			c.Eval(1)
+			c.Count("l1_lint_unreadable_after_tolerated_problems", 1)
+			c.Nontrivial("l1lint-tolerated", fmt.Sprint(k, silent))
+			if res.Crashed() || res.Exit == 0 {
+				c.Violation("lint|unreadable-input-accepted", fmt.Sprintf("lint of a file with %d malformed lines followed by a 70 KiB line: exit %d", k, res.Exit), caseDoc{Args: args, Note: fmt.Sprintf("generated file: %d malformed lines in records of 7, then a record with a comment line of 70000 bytes", k), Observed: map[string]any{"exit": res.Exit, "stdout_bytes": len(res.Out), "stderr": clip(res.Serr, 400)}})
+			}
+		}
+		// the same file without the over-long line, read through a reader that fails right after the last malformed line
+		if srv, err := run.NewServer(c.HR, filepath.Join(c.Work, "l1-tolerated-srv")); err == nil {
+			defer srv.Close()
+			good := sb.String() + "2021/02/01:\n  last: 1\n"
+			srv.Write(map[string]string{name: good})
+			fr := srv.Fault(run.FaultJob{Args: []string{"--no-color", "lint", name}, SinkLimit: -1, Reads: []run.ReadFault{{Idx: 0, Limit: len(sb.String()) + 3}}}, nil)
+			c.Eval(1)
+			c.Count("l2_lint_read_fault_after_tolerated_problems", 1)
+			if fr.Died == "" && fr.Panic == "" && fr.Exit == 0 {
+				c.Violation("lint|read-error-dropped", fmt.Sprintf("lint of a file with %d malformed lines whose reader fails after them: exit 0", k), caseDoc{Args: []string{"--no-color", "lint", name}, Note: fmt.Sprintf("reader fails at byte %d, after %d malformed lines", len(sb.String())+3, k), Observed: map[string]any{"exit": fr.Exit, "readers": fr.Readers}})
+			}
+		}
+	}
 	// a file whose last byte is a carriage return (CRLF file cut before the final line feed): every line counts
 	{
 		crlog := strings.ReplaceAll(strings.TrimRight(log, "\n"), "\n", "\r\n") + "\r"
